@@ -14,6 +14,8 @@ def tlc_factor(f):
 
 
 def tlc_con(k):
+    if k["c"] == "Continuous":
+        return {"c": "MinimumTrials", "f": 0, "l": 0, "k": 0, "i": 0, "fs": []}     # no meaning for the discrete part
     return {"c": k["c"], "f": k.get("f", 0), "l": k.get("l", 0), "k": k.get("k", 0),
             "i": k.get("i", 0), "fs": list(k.get("fs", []))}
 
